@@ -313,6 +313,46 @@ func anyRT(it *rc.Item) {
 	r.Distinct("any|" + hx(want))
 }
 
+// bytesRT: encode(decode(b)) == b for a canonical b decoded into a typed target.
+func bytesRT[T any](class string, b []byte) {
+	r.Evaluations.Add(1)
+	var v T
+	var err error
+	if p := probe.Call(func() { err = cbor.Unmarshal(b, &v) }); p != nil {
+		r.Violation("unmarshal-panic:"+class, fmt.Sprintf("Unmarshal(%s) into %T panics: %s", hx(b), v, p.Value), map[string]any{"bytes": hx(b)})
+		return
+	}
+	if err != nil {
+		r.Violation("roundtrip:"+class, fmt.Sprintf("Unmarshal(%s) into %T fails: %v", hx(b), v, err), map[string]any{"bytes": hx(b)})
+		return
+	}
+	re, err := cbor.Marshal(v)
+	if err != nil || !bytes.Equal(re, b) {
+		r.Violation("reencode:"+class, fmt.Sprintf("encode(decode(b)) != b for %T: b=%s re=%s err=%v", v, hx(b), hx(re), err), map[string]any{"bytes": hx(b)})
+	}
+	r.Distinct(class + "|" + hx(b))
+}
+
+// coseBytes: canonical COSE_Sign1 / COSE_Mac0 / COSE_Encrypt0 objects (as another implementation may produce them)
+// whose protected and unprotected header maps carry a parameter of every value class under several labels; the
+// object must come back byte for byte (hashes and signatures are computed over re-encoded headers).
+func coseBytes() {
+	vals := []*rc.Item{rc.Int(-7), rc.U(0), rc.U(1 << 40), rc.Bs(nil), rc.Bs([]byte{1, 2}), rc.T(""), rc.T("x"), rc.Null(), rc.Bool(true), rc.Bool(false),
+		rc.A(), rc.A(rc.U(1), rc.T("y")), rc.M(), rc.M(rc.U(1), rc.U(2)), rc.Tg(1, rc.U(5)), rc.Tg(32, rc.T("u"))}
+	labels := []*rc.Item{rc.U(4), rc.U(5), rc.U(100), rc.N(258), rc.T("x")}
+	for _, l := range labels {
+		for _, v := range vals {
+			prot := rc.Encode(rc.M(rc.U(1), rc.Int(-7), l, v))
+			for _, hdr := range [][2]*rc.Item{{rc.Bs(prot), rc.M()}, {rc.Bs(rc.Encode(rc.M(rc.U(1), rc.Int(-7)))), rc.M(l, v)}, {rc.Bs(nil), rc.M(l, v)}} {
+				bytesRT[cose.Sign1Tag[cbor.RawBytes, []byte]]("cose.Sign1:header-param", rc.Encode(rc.Tg(18, rc.A(hdr[0], hdr[1], rc.Bs([]byte{0x01}), rc.Bs(make([]byte, 64))))))
+				bytesRT[cose.Mac0Tag[cbor.RawBytes, []byte]]("cose.Mac0:header-param", rc.Encode(rc.Tg(17, rc.A(hdr[0], hdr[1], rc.Bs([]byte{0x01}), rc.Bs(make([]byte, 32))))))
+				bytesRT[cose.Encrypt0Tag[cbor.RawBytes, []byte]]("cose.Encrypt0:header-param", rc.Encode(rc.Tg(16, rc.A(hdr[0], hdr[1], rc.Bs([]byte{9, 9, 9})))))
+			}
+			bytesRT[cose.HeaderMap]("cose.HeaderMap:param", rc.Encode(rc.M(l, v)))
+		}
+	}
+}
+
 func kindClass(it *rc.Item) string {
 	return []string{"uint", "nint", "bytes", "text", "array", "map", "tag", "simple"}[it.Kind]
 }
@@ -657,9 +697,9 @@ func main() {
 	if !r.Quick() {
 		depth = 3
 	}
-	r.Rule(fmt.Sprintf("exhaustive over: all int8/uint8/int16/uint16 values and every head-size boundary +-1 of the 64-bit range for each Go integer kind; byte/text/array lengths {0,1,23,24,255,256,65535,65536,99999}; the closure of boundary leaves under arrays, tags {0,18,2^64-1} and maps (all key subsets of size<=2, size 3 over 8 keys, int and text keys of different encoded lengths) to depth %d decoded into `any`; a catalogue of struct shapes (weights, '-', omitempty, embedded, *embedded, pointers, fixed arrays, maps, flat2, nested Bstr/Tag); every convention type; protocol/COSE types for all 14 key-type/encoding pairs; every plaintext message of honest DI/TO0/TO1/TO2 runs. Oracle per value: Marshal twice identical, equals refcbor canonical encoding of the independently written model, passes refcbor canonicality, Unmarshal gives an equal value (nil==empty), re-Marshal reproduces the bytes. distinct = distinct (class, encoding) pairs.", depth))
+	r.Rule(fmt.Sprintf("exhaustive over: all int8/uint8/int16/uint16 values and every head-size boundary +-1 of the 64-bit range for each Go integer kind; byte/text/array lengths {0,1,23,24,255,256,65535,65536,99999}; the closure of boundary leaves under arrays, tags {0,18,2^64-1} and maps (all key subsets of size<=2, size 3 over 8 keys, int and text keys of different encoded lengths) to depth %d decoded into `any`; a catalogue of struct shapes (weights, '-', omitempty, embedded, *embedded, pointers, fixed arrays, maps, flat2, nested Bstr/Tag); every convention type; protocol/COSE types for all 14 key-type/encoding pairs; every plaintext message of honest DI/TO0/TO1/TO2 runs; canonical COSE_Sign1/Mac0/Encrypt0 objects and header maps carrying a parameter of each of 16 value classes (incl. null, empty and nested values, tags) under 5 labels in the protected or the unprotected map, which must re-encode byte for byte. Oracle per value: Marshal twice identical, equals refcbor canonical encoding of the independently written model, passes refcbor canonicality, Unmarshal gives an equal value (nil==empty), re-Marshal reproduces the bytes. distinct = distinct (class, encoding) pairs.", depth))
 	var wg sync.WaitGroup
-	for _, f := range []func(){ints, shapes, conventions, libraryTypes} {
+	for _, f := range []func(){ints, shapes, conventions, libraryTypes, coseBytes} {
 		wg.Add(1)
 		go func() { defer wg.Done(); f() }()
 	}
